@@ -201,6 +201,17 @@ Theorem C17_item_ended_by_end_of_header : forall flags (junk : list byte) n0 (na
   parse_tokparam flags (junk ++ ((n0 :: name) ++ vbody v) ++ sp ++ CR :: LF :: x :: tail) k tokparam0
   = Done (a + nnat (length (vbody v)) + nnat (length sp) + 2) EEOH (exp_item k a v EEoi 0 PFIN).
 Proof. exact item_eoh. Qed.
+Theorem C17_item_ended_by_white_space_then_token : forall flags (junk : list byte) n0 (name : list byte) v,
+  plain flags n0 -> Forall (plain flags) name -> vok flags v ->
+  forall (w : list byte) c (r : list byte), wsrun flags w -> plain flags c -> tf_spterm (tp_decode flags) = true -> (forall w1, v <> VEmpty w1) ->
+  let k := nnat (length junk) in let a := k + nnat (length (n0 :: name)) in let e := a + nnat (length (vbody v)) in
+  parse_tokparam flags (junk ++ ((n0 :: name) ++ vbody v) ++ w ++ c :: r) k tokparam0
+  = Done (e + nnat (length w) - 1) EOk (close_sp (vstate k a v) e).
+Proof. exact item_spterm. Qed.
+(* the reported parameter: the fields of the other endings, complete *)
+Theorem C17_white_space_then_token_fields : forall k a v, k <= a ->
+  close_sp (vstate k a v) (a + nnat (length (vbody v))) = exp_item k a v EEoi 0 PFIN.
+Proof. intros k a v H. rewrite <- (close_eoi_exp 0 k a v 0 H). destruct v; reflexivity. Qed.
 (* satisfiable: ab, a fold, =, a blank, the quoted string x-backslash-dquote-y, a blank, the separator, a blank, c *)
 Example C17_item_example :
   let v := VQuoted [32;13;10;32] [32] [120;92;34;121] in
@@ -295,6 +306,7 @@ Print Assumptions C17_item_ended_by_terminator.
 Print Assumptions C17_item_then_next_item.
 Print Assumptions C17_item_ended_by_end_of_input.
 Print Assumptions C17_item_ended_by_end_of_header.
+Print Assumptions C17_item_ended_by_white_space_then_token.
 Print Assumptions C17_uri_header_list.
 Print Assumptions C17_uri_parameter_list_to_end_of_input.
 Print Assumptions C17_uri_header_list_to_end_of_input.
